@@ -18,6 +18,7 @@ import (
 	"fmt"
 	"math"
 	"os"
+	"reflect"
 	"sort"
 	"strconv"
 	"strings"
@@ -548,6 +549,7 @@ func execFileDef(args []string) string {
 
 type slotInfo struct {
 	num            int
+	decl           string // kind declared by the shape of the struct field (reflection): value | single | list | dropped (= no such field)
 	kind           string // value | single | list | dropped
 	m1, m253, m254 string // verbatim | time | opaque
 }
@@ -582,8 +584,51 @@ func tagsOf(out []proto.Message) []uint32 {
 	return r
 }
 
+// declaredKinds: what the exported struct of the file type declares for each message number: a field of type
+// mesgdef.X is a value, *mesgdef.X a single message, []*mesgdef.X a list. The message number of X is taken from
+// (&X{}).ToMesg(nil).Num. This is the independent source for "which kinds are singletons".
+func declaredKinds(f filedef.File) map[int]string {
+	res := map[int]string{}
+	v := reflect.ValueOf(f)
+	if v.Kind() != reflect.Ptr || v.Elem().Kind() != reflect.Struct {
+		return res
+	}
+	t := v.Elem().Type()
+	for i := 0; i < t.NumField(); i++ {
+		ft := t.Field(i).Type
+		kind := ""
+		var st reflect.Type
+		switch {
+		case ft.Kind() == reflect.Struct:
+			kind, st = "value", ft
+		case ft.Kind() == reflect.Ptr && ft.Elem().Kind() == reflect.Struct:
+			kind, st = "single", ft.Elem()
+		case ft.Kind() == reflect.Slice && ft.Elem().Kind() == reflect.Ptr && ft.Elem().Elem().Kind() == reflect.Struct:
+			kind, st = "list", ft.Elem().Elem()
+		default:
+			continue
+		}
+		if !strings.HasSuffix(st.PkgPath(), "/profile/mesgdef") {
+			continue
+		}
+		m := reflect.New(st).MethodByName("ToMesg")
+		if !m.IsValid() || m.Type().NumIn() != 1 {
+			continue
+		}
+		out := m.Call([]reflect.Value{reflect.Zero(m.Type().In(0))})
+		if len(out) != 1 {
+			continue
+		}
+		if mesg, ok := out[0].Interface().(proto.Message); ok {
+			res[int(mesg.Num)] = kind
+		}
+	}
+	return res
+}
+
 func probeFileType(ft fileType) (ftInfo, error) {
 	info := ftInfo{ft: ft}
+	decl := declaredKinds(ft.fn())
 	empty := ft.fn().ToFIT(nil).Messages
 	if len(empty) != 1 || empty[0].Num != mesgnum.FileId {
 		return info, fmt.Errorf("%s: an empty file does not emit exactly one file_id message (%d messages): not expressible in the table", ft.name, len(empty))
@@ -708,7 +753,11 @@ func probeFileType(ft fileType) (ftInfo, error) {
 		return "opaque"
 	}
 	for _, n := range slotNums {
-		info.slots = append(info.slots, slotInfo{num: n, kind: kind[n], m1: mode(n, 1), m253: mode(n, 253), m254: mode(n, 254)})
+		d, ok := decl[n]
+		if !ok {
+			d = "dropped"
+		}
+		info.slots = append(info.slots, slotInfo{num: n, decl: d, kind: kind[n], m1: mode(n, 1), m253: mode(n, 253), m254: mode(n, 254)})
 	}
 	// where sorting starts: groups = slots ++ [unrelated]; strictly descending keys in emission order
 	var ds []mdesc
@@ -870,7 +919,7 @@ func execFileDefProbe(args []string) string {
 			if i == len(in.slots)-1 {
 				sep = ""
 			}
-			fmt.Fprintf(&sb, "    ⟨%d, .%s, .%s, .%s, .%s⟩%s\n", s.num, s.kind, s.m1, s.m253, s.m254, sep)
+			fmt.Fprintf(&sb, "    ⟨%d, .%s, .%s, .%s, .%s, .%s⟩%s\n", s.num, s.decl, s.kind, s.m1, s.m253, s.m254, sep)
 		}
 		sb.WriteString("  ] }\n\n")
 	}
